@@ -143,7 +143,8 @@ def check_curve(rng, tmp):
     mode = rng.choice(['vac', 'temp', 'press'])
     tp = rng.uniform(150, 300) if mode == 'temp' else None
     pp = rng.choice([0.0, rng.uniform(0, 3)]) if mode == 'press' else None
-    comps = [pv.Composition(p=rng.uniform(0.05, 0.95), type=ctype) for _ in range(n)]
+    mixed = rng.random() < 0.4        # every point carries its own basis
+    comps = [pv.Composition(p=rng.uniform(0.05, 0.95), type=(rng.choice(['weight', 'molar']) if mixed else ctype)) for _ in range(n)]
     c = DiffusionCurve(mixture=m, membrane_name='mm', feed_temperature=rng.uniform(290, 360), feed_compositions=comps,
                        partial_fluxes=[(gens.loguniform(rng, 1e-3, 5), gens.loguniform(rng, 1e-6, 1)) for _ in range(n)],
                        permeances=[(pv.Permeance(gens.loguniform(rng, 1e-9, 1)), pv.Permeance(gens.loguniform(rng, 1e-9, 1))) for _ in range(n)],
